@@ -43,7 +43,9 @@ CONSTANTS
     MaxTasks,     \* bound on the number of pool tasks
     CbReads,      \* scripted callbacks call get_state() and report the value
     FineReg,      \* park also after the receive and before the reducers lock (run-time registration)
-    Defects       \* subset of {"F2","F3","F6"}: known defects still present in the code
+    Defects       \* subset of {"F2","F3","F6"}: defects of the pinned tree that are modelled as such when listed.
+                  \* All three are fixed in /repo (DESIGN.md 10.4), so the checks run with Defects = {}; listing one
+                  \* brings the old behaviour back (e.g. to reproduce the counterexamples that led to the fixes).
 
 VARIABLES
     prog,      \* the programs chosen in Init (never changes)
@@ -240,7 +242,7 @@ MTry2(w) ==                  \* pc "spop": second try_send, channel.rs:74-77
     LET ch == L(w).ch IN
     IF Len(w.chan[ch].q) < ChanCap(ch)
     THEN SentPark([w EXCEPT !.chan[ch].q = Append(@, SendItem(w))], TRUE)
-    ELSE SentPark(w, FALSE)  \* cannot happen while senders are serialised (asserted by SendersSerialised)
+    ELSE SentPark(w, FALSE)  \* cannot happen while senders are serialised (Props!C06_RetryFindsRoom)
 
 -----------------------------------------------------------------------------
 (* on_unsubscribe of subscriber s, by kind; returns to L.uret                *)
